@@ -479,3 +479,34 @@ Lemma to_var_from_choi_round_trip_thm : forall (F : OF) (eps : F) d (B : nat -> 
   ((forall k, (k < var_len d para)%nat -> v k = c0 F \/ kle F eps (kabs (v k))) ->
    exists w, var_of_choi_fixed eps d B para (choi_of_var d B para v) = Some w /\ forall k, (k < var_len d para)%nat -> w k = v k).
 Proof. intros F eps d B para v Ho. split; [now apply var_of_choi_fixed_round_trip|now apply var_of_choi_fixed_exact]. Qed.
+
+(* ================================================================== round 3: certificate => property, Hermiticity / reality of the representations *)
+(* CERTIFICATE => PROPERTY (what the harness checks on the output of to_kraus_matrices_from_hs): a Kraus list whose HS matrix
+   sum_K <B_a, K B_b K^dag> equals H entrywise denotes the very map H denotes; hence two Kraus lists with the same HS matrix denote the same map *)
+Lemma kraus_certificate_thm : forall (F : OF) d (B : nat -> cmat F) (Ks : list (cmat F)) (H X : cmat F) i j,
+  basis_complete d B -> (forall a b, (a < d * d)%nat -> (b < d * d)%nat -> chs_of_kraus d B Ks a b = H a b) ->
+  (i < d)%nat -> (j < d)%nat -> capply_hs d B H X i j = kraus_apply d Ks X i j.
+Proof. intros F d B Ks H X i j Hc E Hi Hj. rewrite <- (capply_chs_of_kraus F d B Ks X i j Hc Hi Hj).
+  apply capply_hs_ext; [|apply meq_refl]. intros a b Ha Hb. symmetry. now apply E. Qed.
+Lemma kraus_sets_same_map_thm : forall (F : OF) d (B : nat -> cmat F) (Ks Ks' : list (cmat F)) (X : cmat F) i j,
+  basis_complete d B -> (forall a b, (a < d * d)%nat -> (b < d * d)%nat -> chs_of_kraus d B Ks a b = chs_of_kraus d B Ks' a b) ->
+  (i < d)%nat -> (j < d)%nat -> kraus_apply d Ks X i j = kraus_apply d Ks' X i j.
+Proof. intros F d B Ks Ks' X i j Hc E Hi Hj. rewrite <- (kraus_certificate_thm F d B Ks (chs_of_kraus d B Ks') X i j Hc E Hi Hj).
+  now apply capply_chs_of_kraus. Qed.
+(* the representations of Hermiticity-preserving objects are Hermitian / real, as the truncating conversions assume (Hermitian basis) *)
+Lemma hermiticity_thm : forall (F : OF) d (B : nat -> cmat F), basis_hermitian d B ->
+  (forall v : rvec F, hermitian d (op_of_vec d B v)) /\
+  (forall (X : cmat F) a, hermitian d X -> (a < d * d)%nat -> im (cvec_of_op d B X a) = c0 F) /\
+  (forall HS : rmat F, hermitian (d * d) (choi_of_hs d B HS)) /\
+  (forall (Ch : cmat F) a b, hermitian (d * d) Ch -> (a < d * d)%nat -> (b < d * d)%nat -> im (chs_of_choi d B Ch a b) = c0 F) /\
+  (forall (Ks : list (cmat F)) a b, (a < d * d)%nat -> (b < d * d)%nat -> im (chs_of_kraus d B Ks a b) = c0 F) /\
+  (forall (HS : rmat F) al be, (al < d * d)%nat -> (be < d * d)%nat ->
+     process_matrix d B (cof HS) al be = zconj (process_matrix d B (cof HS) be al)).
+Proof. intros F d B Hh. split; [|split; [|split; [|split; [|split]]]].
+  - intros v. now apply op_of_vec_hermitian.
+  - intros X a HX Ha. rewrite (cvec_of_op_real F d B X a Hh HX Ha). reflexivity.
+  - intros HS. now apply choi_of_hs_hermitian.
+  - intros Ch a b HC Ha Hb. rewrite (chs_of_choi_real F d B Ch a b Hh HC Ha Hb). reflexivity.
+  - intros Ks a b Ha Hb. rewrite (chs_of_kraus_real F d B Ks a b Hh Ha Hb). reflexivity.
+  - intros HS al be Hal Hbe. rewrite !process_matrix_is_choi by assumption.
+    exact (choi_of_hs_hermitian F d B HS Hh al be Hal Hbe). Qed.
